@@ -141,7 +141,7 @@ def run(module, consts=None, invariants=(), properties=(), view=None, constraint
         r.violated = "error"
     if r.violated:
         i = out.find("Error:")
-        r.trace_text = out[i:i + 6000] if i >= 0 else out[-3000:]
+        r.trace_text = out[i:i + 60000] if i >= 0 else out[-3000:]
     r.ok = r.violated is None
     if not keep:
         shutil.rmtree(d, ignore_errors=True)
